@@ -1,7 +1,7 @@
 """C12 configuration for ./check (keys: see checks/propcfg.py)."""
 CFG = {
-    "modules": ["VaxisModel.Props.C12", "VaxisModel.Props.C12Read", "VaxisModel.Props.C12Resize", "VaxisModel.Witness.F112b", "VaxisModel.Witness.F112c", "VaxisModel.Witness.F112d"],
-    "extractors": ["C07", "C04", "C05", "C03", "C12"],
+    "modules": ["VaxisModel.Props.C12", "VaxisModel.Props.C12Read", "VaxisModel.Props.C12Resize", "VaxisModel.Props.C12Startup", "VaxisModel.Witness.F112b", "VaxisModel.Witness.F112c", "VaxisModel.Witness.F112d"],
+    "extractors": ["C07", "C04", "C05", "C03", "C12", "C07caps"],
     "drivers": ["C12"],
     "stateful": True,
     "trivial_prefix": ("-", "bytes="),
